@@ -883,6 +883,7 @@ class Extractor:
         self.tpath = tpath
         self.vacuity = vacuity
         self.probed = []     # item ids that carry a vacuity probe
+        self.loops_gone = []  # item ids checked loop-free because all their loops vanished
         self.pieces = []
         self.log = {}        # item id -> set of rules
         self.hashes = {}     # item id -> sha256 of original text
@@ -1054,6 +1055,11 @@ class Extractor:
         # loops
         loops = [m for m in re.finditer(r"\b(while|for|loop)\b", body_masked)]
         for n, blk in fs.loops.items():
+            if n > len(loops) and not loops:
+                # the function no longer has ANY loop: its invariants are moot, the loop-free
+                # body is checked against the contract as it stands
+                self.log.setdefault(ident, set()).add("X9:loop-invariants-dropped(function has no loop any more)")
+                continue
             if n < 1 or n > len(loops):
                 raise AnchorLost("%s: loop #%d not found (%d loops)" % (ident, n, len(loops)))
             lb = find_body_open(body_masked, loops[n - 1].end())
@@ -1072,10 +1078,28 @@ class Extractor:
                 if k < 0:
                     raise AnchorLost("%s: snippet `%s` (occurrence %d) not found" % (ident, snip, nth))
             return k
+        loops_gone = bool(fs.loops) and not loops
+        if loops_gone:
+            self.loops_gone.append(ident)
+
+        def anchored(snip, nth):
+            # a function that lost ALL its loops is checked loop-free: hints anchored on text
+            # that vanished with the loops are dropped with the invariants (logged)
+            try:
+                return find_nth(snip, nth)
+            except AnchorLost:
+                if loops_gone:
+                    self.log.setdefault(ident, set()).add("X9:hint-dropped(anchor vanished with the loops)")
+                    return None
+                raise
         for (snip, blk, tl, nth) in fs.before:
-            inserts.append((find_nth(snip, nth), blk))
+            k = anchored(snip, nth)
+            if k is not None:
+                inserts.append((k, blk))
         for (snip, blk, tl, nth) in fs.after:
-            inserts.append((find_nth(snip, nth) + len(snip), blk))
+            k = anchored(snip, nth)
+            if k is not None:
+                inserts.append((k + len(snip), blk))
         for (snip, blk, tl, nth) in fs.afterstmt:
             k = find_nth(snip, nth)
             depth = 0
@@ -1159,6 +1183,7 @@ def extract(repo, tpath, vacuity=False):
         "includes": ex.includes,
         "fn_regions": ex.fn_regions,
         "probed": ex.probed,
+        "loops_gone": ex.loops_gone,
     }
     return text, linemap, meta
 
